@@ -1,221 +1,333 @@
-(* C14 — property theorems only.  Every theorem is closed by [exact] of a lemma
-   proved in Proofs.v and followed by [Print Assumptions].
+(* C14 — property theorems only.  Every theorem is closed by [exact] of a lemma proved in
+   ProofsA..D.v and followed by [Print Assumptions].
 
-   [transact i] is the model of SqlConn.TransactCtx / Transact (Model.v); the input
-   [i] = (breaker verdict, Begin outcome, the body as a list of statements of any
-   length — each with its driver outcome ok / fail / refused-for-cancelled-context and
-   the body's reaction return-it / ignore-it / panic —, how the body ends after its
-   last statement nil / error / panic, Commit outcome, Rollback outcome).  All
-   theorems quantify over every such input: every body length and fault placement. *)
+   [exec g scs sched orc] (Model.v) runs the machine: [scs] are the transactions (each: which
+   API, context already cancelled or not, breaker verdict, connection provider ok or not, the
+   body as a list of steps of any length — statements through every Session method, nested
+   Transact on the session, Commit/Rollback by the body itself, cancellation of the context —
+   with the body's reaction to a failing step return-it / ignore-it / panic, and its ending
+   nil / error / panic / goroutine exit); [sched] says which transaction performs its next
+   quantum (the call up to the first step; one step; the end of the body with the deferred
+   function); [orc] scripts the driver: the answer ok / fail / panic of its 1st, 2nd, ... call,
+   whoever makes it, and whether the caller's context becomes done during that call.
+   [g] = the tree guards the commit against a body that never returned (GZgen.C14Consts,
+   regenerated; GenProofs.v pins it to true).
+
+   ALL theorems quantify over every such scs, sched (any interleaving, complete or not), orc:
+   every body length, every fault point, every sequence of transactions on long-lived SqlConns,
+   every interleaving of concurrent ones — including a transaction begun on the pool from inside
+   the body of another (its quanta lie between two quanta of the outer one).
+   [trace t] = the driver calls made on behalf of transaction t, in order. *)
 From Coq Require Import List ZArith Bool Sorted.
-From GZ Require Import C14.Model C14.Check C14.Proofs.
+From GZ Require Import C14.Model C14.Check C14.ProofsA C14.ProofsB C14.ProofsC C14.ProofsD.
 Import ListNotations.
 Open Scope Z_scope.
 
-(* Exactly one Begin.  If it fails: nothing else reaches the driver and the body is
-   not run.  Otherwise the body runs once and the driver log is
-   Begin, statements..., E   where E is a Commit or a Rollback: exactly one end call,
+Notation trace g scs sched orc t := (proj t (wlog (exec g scs sched orc))).
+Notation thread_of g scs sched orc t th := (nth_error (wthreads (exec g scs sched orc)) t = Some th).
+
+(* Begins one transaction and ends it exactly once.  In every state of every run:
+   not called yet: no driver call.  In the body: Begin✓, then statements only — plus one end
+   call iff the body ended the transaction itself.  Finished: either the body did not run and
+   the driver saw nothing or one failed Begin; or the body ran once and the driver saw
+   Begin✓, statements, E with E a Commit or a Rollback: exactly one Begin, exactly one end call,
    and it is the last call. *)
-Theorem ends_exactly_once : forall i,
-  let_through i = true ->
-  (ibegin i = false ->
-     rlog (transact i) = [(CBegin, false)] /\ rruns (transact i) = 0 /\ rbody (transact i) = None) /\
-  (ibegin i = true ->
-     rruns (transact i) = 1 /\
-     exists mid last ok,
-       rlog (transact i) = (CBegin, true) :: mid ++ [(last, ok)] /\
-       Forall (fun x => is_exec (fst x) = true) mid /\
-       is_end last = true /\
-       count is_begin (rlog (transact i)) = 1%nat /\
-       count is_end (rlog (transact i)) = 1%nat).
-Proof. exact ends_exactly_once_l. Qed.
+Theorem ends_exactly_once : forall g scs sched orc t th,
+  thread_of g scs sched orc t th ->
+  match tst th with
+  | TIdle => trace g scs sched orc t = []
+  | TBody _ _ _ done =>
+    exists b S, ecall b = CBegin /\ eout b = OOk /\ Forall (fun e => ent_stmt e = true) S /\
+      if done then exists e, trace g scs sched orc t = b :: S ++ [e] /\ ent_end e = true /\
+                             count ent_end (trace g scs sched orc t) = 1%nat
+      else trace g scs sched orc t = b :: S /\ count ent_end (trace g scs sched orc t) = 0%nat
+  | TDone r =>
+    (rruns r = 0 /\ rbody r = None /\
+       (trace g scs sched orc t = [] \/
+        exists b, trace g scs sched orc t = [b] /\ ecall b = CBegin /\ eout b <> OOk)) \/
+    (rruns r = 1 /\ exists b S e,
+       trace g scs sched orc t = b :: S ++ [e] /\ ecall b = CBegin /\ eout b = OOk /\
+       Forall (fun x => ent_stmt x = true) S /\ ent_end e = true /\
+       count ent_end (trace g scs sched orc t) = 1%nat /\
+       count ent_begin (trace g scs sched orc t) = 1%nat)
+  end.
+Proof. exact shape_l. Qed.
 Print Assumptions ends_exactly_once.
 
-(* An already cancelled context (breaker.DoWithAcceptableCtx returns ctx.Err() at once) or
-   the breaker refusing the call: no transaction, no body, the caller is told. *)
-Theorem refused_call_runs_nothing : forall i,
-  let_through i = false ->
-  rlog (transact i) = [] /\ rruns (transact i) = 0 /\ rbody (transact i) = None /\
-  rerr (transact i) = (if is_dead (ictx i) then ECanceled else EUnavailable).
-Proof. exact breaker_refusal_l. Qed.
+(* Never two Begins, never two end calls, at any moment. *)
+Theorem never_twice : forall g scs sched orc t th,
+  thread_of g scs sched orc t th ->
+  (count ent_end (trace g scs sched orc t) <= 1)%nat /\
+  (count ent_begin (trace g scs sched orc t) <= 1)%nat.
+Proof. exact at_most_once_l. Qed.
+Print Assumptions never_twice.
+
+(* The body is run (once) iff Begin succeeded — not if the transaction cannot begin. *)
+Theorem body_runs_iff_begun : forall g scs sched orc t th r,
+  thread_of g scs sched orc t th -> tst th = TDone r ->
+  (rruns r = 1 <-> exists b, In b (trace g scs sched orc t) /\ ecall b = CBegin /\ eout b = OOk) /\
+  (rruns r = 0 \/ rruns r = 1).
+Proof. intros g scs sched orc t th r H. exact (body_runs_iff_begun_l g scs sched orc t th H r). Qed.
+Print Assumptions body_runs_iff_begun.
+
+(* A context that is already cancelled (breaker.DoWithAcceptableCtx returns ctx.Err() at once), the
+   breaker refusing the call, or no connection: no driver call, no body, the caller is told. *)
+Theorem refused_call_runs_nothing : forall g scs sched orc t th,
+  thread_of g scs sched orc t th -> let_through (tsc th) = false ->
+  trace g scs sched orc t = [] /\
+  (tst th = TIdle \/ tst th = TDone (mkRes 0 None (RetErr (refusal (tsc th))) false)).
+Proof. exact refused_l. Qed.
 Print Assumptions refused_call_runs_nothing.
 
-(* For EVERY input — every context state included: the driver sees at most one Begin and at
-   most one end call, and exactly one end call iff the call was let through and Begin
-   succeeded.  In particular cancelling the context during the body never ends the
-   transaction behind go-zero's back (it begins with db.Begin(), i.e. context.Background()):
-   the deferred Commit / Rollback is the one end call. *)
-Theorem ends_at_most_once_whatever_the_context : forall i,
-  (count is_end (rlog (transact i)) <= 1)%nat /\
-  (count is_begin (rlog (transact i)) <= 1)%nat /\
-  (count is_end (rlog (transact i)) = 1%nat <-> (let_through i = true /\ ibegin i = true)).
-Proof. exact ends_at_most_once_l. Qed.
-Print Assumptions ends_at_most_once_whatever_the_context.
-
-(* Statements issued from the cancellation point on never reach the driver. *)
-Theorem statements_after_cancel_never_reach_driver : forall i x,
-  let_through i = true -> ibegin i = true ->
-  In x (rlog (transact i)) -> is_exec (fst x) = true ->
-  ctx_covers (ictx i) (exec_index x) = false.
-Proof. exact statements_after_cancel_l. Qed.
-Print Assumptions statements_after_cancel_never_reach_driver.
-
-(* Commit iff the body returned nil; Rollback iff it returned an error or panicked. *)
-Theorem commit_iff_body_nil : forall i,
-  let_through i = true -> ibegin i = true ->
-  ((exists ok, In (CCommit, ok) (rlog (transact i))) <-> rbody (transact i) = Some BNil) /\
-  ((exists ok, In (CRollback, ok) (rlog (transact i))) <->
-     (rbody (transact i) = Some BPanic \/ exists b, rbody (transact i) = Some (BErr b))).
-Proof. exact commit_iff_body_nil_l. Qed.
+(* Commit iff the body returned nil; Rollback iff it returned an error, panicked or exited its
+   goroutine.  (For a body that did not end the transaction itself: [rself r = false], which
+   [self_free_bodies] gives for every script without Commit/Rollback steps.)
+   In a tree without the guard ([g = false]) it holds for bodies that do not exit. *)
+Theorem commit_iff_body_nil : forall g scs sched orc t th r o,
+  thread_of g scs sched orc t th -> tst th = TDone r -> rruns r = 1 -> rself r = false ->
+  rbody r = Some o -> (g = true \/ o <> BGoexit) ->
+  ((exists e, In e (trace g scs sched orc t) /\ ecall e = CCommit) <-> o = BNil) /\
+  ((exists e, In e (trace g scs sched orc t) /\ ecall e = CRollback) <-> o <> BNil).
+Proof. intros g scs sched orc t th r o H. exact (commit_iff_body_nil_l g scs sched orc t th H r o). Qed.
 Print Assumptions commit_iff_body_nil.
 
-(* ... where "the body returned nil / an error / panicked" is what its script says:
-   nil iff no failing statement made it leave and it ends with "return nil"; otherwise
-   the first statement it reacts to decides (error of that statement, or panic). *)
-Theorem body_outcome_is_the_scripts : forall i,
-  let_through i = true -> ibegin i = true ->
-  (rbody (transact i) = Some BNil <-> (quiet (estmts i) /\ ifin i = RNil)) /\
-  (quiet (estmts i) -> rbody (transact i) = Some (fin_out (ifin i))) /\
-  (forall pre s post, estmts i = pre ++ s :: post -> quiet pre -> reacts s = true ->
-     rbody (transact i) = Some (reaction (Z.of_nat (length pre)) s)).
-Proof. exact body_outcome_l. Qed.
-Print Assumptions body_outcome_is_the_scripts.
+Theorem self_free_bodies : forall g scs sched orc t th r,
+  thread_of g scs sched orc t th -> tst th = TDone r -> self_free (tsc th) = true -> rself r = false.
+Proof. intros g scs sched orc t th r H. exact (self_free_not_self g scs sched orc t th H r). Qed.
+Print Assumptions self_free_bodies.
 
-(* A panic in the body: the last driver call is a Rollback, and the caller gets a
-   non-nil "recover from ..." error (wrapping the rollback error if that failed too). *)
-Theorem panic_rolls_back_and_errors : forall i,
-  let_through i = true -> ibegin i = true -> rbody (transact i) = Some BPanic ->
-  (exists mid, rlog (transact i) = (CBegin, true) :: mid ++ [(CRollback, irollback i)]) /\
-  rerr (transact i) <> ENil /\
-  rerr (transact i) = (if irollback i then ERecover else ERecoverRollback).
-Proof. exact panic_rolls_back_and_errors_l. Qed.
-Print Assumptions panic_rolls_back_and_errors.
-
-(* The returned error is nil exactly when a Commit reached the driver and succeeded
-   (for every input, including refused and failed-to-begin calls). *)
-Theorem nil_only_if_commit_succeeded : forall i,
-  rerr (transact i) = ENil <-> In (CCommit, true) (rlog (transact i)).
-Proof. exact nil_iff_commit_succeeded_l. Qed.
+(* The returned error is nil only when the commit succeeded (every body, self-ending ones too):
+   the last driver call of the transaction is a successful Commit and the body returned nil. *)
+Theorem nil_only_if_commit_succeeded : forall g scs sched orc t th r,
+  thread_of g scs sched orc t th -> tst th = TDone r -> rret r = RetErr ENil ->
+  exists pre e, trace g scs sched orc t = pre ++ [e] /\ ecall e = CCommit /\ eout e = OOk /\
+                rbody r = Some BNil.
+Proof. intros g scs sched orc t th r H. exact (nil_only_if_commit_succeeded_l g scs sched orc t th H r). Qed.
 Print Assumptions nil_only_if_commit_succeeded.
 
-(* Commit and rollback failures are reported to the caller. *)
-Theorem end_failures_surface : forall i,
-  (In (CCommit, false) (rlog (transact i)) -> reports_commit_failure (rerr (transact i)) = true) /\
-  (In (CRollback, false) (rlog (transact i)) -> reports_rollback_failure (rerr (transact i)) = true).
-Proof. exact end_failures_surface_l. Qed.
+(* ... and, in a guarded tree, exactly then. *)
+Theorem nil_iff_commit_succeeded : forall scs sched orc t th r,
+  thread_of true scs sched orc t th -> tst th = TDone r -> rself r = false ->
+  (rret r = RetErr ENil <->
+   exists e, In e (trace true scs sched orc t) /\ ecall e = CCommit /\ eout e = OOk).
+Proof. intros scs sched orc t th r H Hst Hs. exact (nil_iff_commit_succeeded_l true scs sched orc t th H r Hst Hs eq_refl). Qed.
+Print Assumptions nil_iff_commit_succeeded.
+
+(* Commit and rollback failures are reported to the caller; a panicking Commit / Rollback is
+   not turned into a normal return. *)
+Theorem end_failures_surface : forall g scs sched orc t th r e,
+  thread_of g scs sched orc t th -> tst th = TDone r -> rself r = false ->
+  In e (trace g scs sched orc t) -> ent_end e = true ->
+  (eout e = OPanic -> rret r = RetPanic) /\
+  (eout e = OFail -> rbody r <> Some BGoexit ->
+     (ecall e = CCommit -> rret r = RetErr (ECommit DrvCommit)) /\
+     (ecall e = CRollback -> reports_rollback_failure (rret r) = true)) /\
+  (eout e = OFail -> rbody r = Some BGoexit -> rret r = RetNever).
+Proof. intros g scs sched orc t th r e H. exact (end_failures_surface_l g scs sched orc t th H r e). Qed.
 Print Assumptions end_failures_surface.
 
-(* The body's error comes back unchanged when the rollback worked, and named inside
-   the "transaction failed: ..., rollback failed: ..." error otherwise. *)
-Theorem body_error_is_returned : forall i b,
-  let_through i = true -> ibegin i = true -> rbody (transact i) = Some (BErr b) ->
-  rerr (transact i) = (if irollback i then EBody b else ETxFailedRollback b).
-Proof. exact body_error_returned_l. Qed.
+(* A panic in the body is reported as an error, never swallowed as success: the last call is a
+   Rollback and the caller gets "recover from ..." (wrapping the rollback error if that failed
+   too), or the panic of a panicking Rollback. *)
+Theorem panic_rolls_back_and_errors : forall g scs sched orc t th r,
+  thread_of g scs sched orc t th -> tst th = TDone r -> rbody r = Some BPanic ->
+  is_nil_ret (rret r) = false /\
+  (rself r = false -> exists pre e, trace g scs sched orc t = pre ++ [e] /\ ecall e = CRollback /\
+     rret r = match eout e with
+              | OOk => RetErr (ERecover None)
+              | OFail => RetErr (ERecover (Some DrvRollback))
+              | OPanic => RetPanic
+              end).
+Proof. intros g scs sched orc t th r H. exact (panic_is_reported_l g scs sched orc t th H r). Qed.
+Print Assumptions panic_rolls_back_and_errors.
+
+(* The body's error comes back unchanged when the rollback worked, and named inside the
+   "transaction failed: ..., rollback failed: ..." error otherwise. *)
+Theorem body_error_is_returned : forall g scs sched orc t th r b,
+  thread_of g scs sched orc t th -> tst th = TDone r -> rself r = false -> rbody r = Some (BErr b) ->
+  exists pre e, trace g scs sched orc t = pre ++ [e] /\ ecall e = CRollback /\
+    rret r = match eout e with
+             | OOk => RetErr (EBody b)
+             | OFail => RetErr (ETxFailed b DrvRollback)
+             | OPanic => RetPanic
+             end.
+Proof. intros g scs sched orc t th r b H. exact (body_error_returned_l g scs sched orc t th H r b). Qed.
 Print Assumptions body_error_is_returned.
 
-(* Between Begin and the end call the driver sees only statements of the body, each at
-   most once, in program order. *)
-Theorem statements_in_order_at_most_once : forall i,
-  let_through i = true -> ibegin i = true ->
-  exists mid e, rlog (transact i) = (CBegin, true) :: mid ++ [e] /\
-    StronglySorted (fun x y => exec_index x < exec_index y) mid /\
-    Forall (fun x => 0 <= exec_index x < Z.of_nat (length (istmts i))) mid.
-Proof. exact statements_in_order_l. Qed.
+(* A body that exits its goroutine (runtime.Goexit: t.FailNow inside the body): the call does not
+   come back with a result, and the transaction is rolled back — committed in a tree without the
+   guard (Pinned.goexit_unguarded_refuted; finding F24, repaired). *)
+Theorem goroutine_exit_rolls_back : forall g scs sched orc t th r,
+  thread_of g scs sched orc t th -> tst th = TDone r -> rbody r = Some BGoexit ->
+  (rret r = RetNever \/ rret r = RetPanic) /\
+  (rself r = false -> exists pre e, trace g scs sched orc t = pre ++ [e] /\
+                                    ecall e = (if g then CRollback else CCommit)).
+Proof. intros g scs sched orc t th r H. exact (goexit_l g scs sched orc t th H r). Qed.
+Print Assumptions goroutine_exit_rolls_back.
+
+(* Between Begin and the end call the driver sees only statements of the body, each entry point
+   at most once, in program order ([skey]: step index, Prepare before Stmt.Exec). *)
+Theorem statements_in_order_at_most_once : forall g scs sched orc t th r,
+  thread_of g scs sched orc t th -> tst th = TDone r -> rruns r = 1 ->
+  exists b S e, trace g scs sched orc t = b :: S ++ [e] /\
+    StronglySorted (fun x y => skey x < skey y) S /\
+    Forall (fun x => 0 <= skey x < 2 * nsteps (tsc th)) S.
+Proof. intros g scs sched orc t th r H. exact (statements_in_order_l g scs sched orc t th H r). Qed.
 Print Assumptions statements_in_order_at_most_once.
 
-(* ... and none is skipped while the body keeps going. *)
-Theorem quiet_body_runs_every_statement : forall i j s,
-  let_through i = true -> ibegin i = true -> quiet (estmts i) ->
-  nth_error (estmts i) j = Some s -> sres_of s <> SCtx ->
-  In (CExec (Z.of_nat j), match sres_of s with SOk => true | _ => false end) (rlog (transact i)).
-Proof. exact quiet_body_runs_all_l. Qed.
-Print Assumptions quiet_body_runs_every_statement.
+(* Every statement of a transaction runs on the transaction's connection (the one that served
+   its Begin), never on the pool; and every driver call is made on behalf of some transaction. *)
+Theorem own_connection : forall g scs sched orc t th,
+  thread_of g scs sched orc t th ->
+  Forall (fun e => econn e = sconn (tsc th)) (trace g scs sched orc t).
+Proof. exact th_conn. Qed.
+Print Assumptions own_connection.
+
+Theorem every_call_is_somebodys : forall g scs sched orc e,
+  In e (wlog (exec g scs sched orc)) ->
+  exists th, nth_error (wthreads (exec g scs sched orc)) (etid e) = Some th /\
+             In e (trace g scs sched orc (etid e)).
+Proof. exact every_call_is_somebodys_l. Qed.
+Print Assumptions every_call_is_somebodys.
+
+(* The log as a whole, whoever made the calls: on every connection, as many end calls as
+   successful Begins, plus the transactions that are open on it right now; and the connections
+   lost for good are exactly the end calls on which the driver panicked. *)
+Theorem connections_balanced : forall g scs sched orc c,
+  count (fun e => on_conn c e && begun_ok e) (wlog (exec g scs sched orc)) =
+  (count (fun e => on_conn c e && ent_end e) (wlog (exec g scs sched orc)) +
+   open_conn c (wthreads (exec g scs sched orc)))%nat.
+Proof. exact balanced_l. Qed.
+Print Assumptions connections_balanced.
+
+Theorem lost_connections : forall g scs sched orc,
+  wleaks (exec g scs sched orc) = Z.of_nat (count lostb (wlog (exec g scs sched orc))).
+Proof. exact leaks_l. Qed.
+Print Assumptions lost_connections.
+
+(* The driver's script is followed: the i-th driver call of the run — whichever transaction makes
+   it — is answered by the i-th reply (a scripted panic is honoured by Commit/Rollback only), and
+   exactly one reply is consumed per call. *)
+Theorem driver_script_is_followed : forall g scs sched orc,
+  worc (exec g scs sched orc) = skipn (length (wlog (exec g scs sched orc))) orc /\
+  forall i e, nth_error (wlog (exec g scs sched orc)) i = Some e ->
+              eout e = honoured (ecall e) (rout (nth i orc dflt)).
+Proof. exact script_followed_l. Qed.
+Print Assumptions driver_script_is_followed.
+
+(* Nested use.  A Transact / TransactCtx on the transaction's own session
+   (NewSqlConnFromSession(s), CachedConn.WithSession(s)) makes no driver call, leaves the outer
+   transaction as it is, and the step fails with errCantNestTx; the inner body does not exist in
+   the machine (it is never run: [o_nest] in Check.v).  A transaction begun on the POOL from inside
+   a body is another transaction whose quanta lie between two quanta of the outer one: all
+   theorems above apply to both, for that schedule as for any other. *)
+Theorem nested_transact_is_refused : forall t sc k canc done orc,
+  do_action t sc k ANest canc done orc = (SErr (BNest k), [], orc, canc, done, false).
+Proof. exact nest_is_refused_l. Qed.
+Print Assumptions nested_transact_is_refused.
 
 (* The decidable check [prop_ok] that ./check applies to what the real code did:
-   (a) the model always passes it (it is not stricter than what is proved), and
-   (b) passing it means the property, read off the observed driver log. *)
-Theorem model_passes_the_check : forall i,
-  prop_ok (case_of i) = true /\ agrees (case_of i) = true.
+   (a) every run of the model passes it and agrees with itself (the checker is not stricter than
+       what is proved) — in a guarded tree; and
+   (b) passing it means the property, read off the observed driver log, transaction by transaction
+       and on the log as a whole. *)
+Theorem model_passes_the_check : forall g scs sched orc,
+  agrees (case_of g scs sched orc) = true /\ (g = true -> prop_ok (case_of g scs sched orc) = true).
 Proof. exact model_passes_check_l. Qed.
 Print Assumptions model_passes_the_check.
 
 Theorem check_means_the_property : forall c,
   prop_ok c = true ->
-  match olog c with
-  | [] => let_through (cin c) = false /\ oruns c = 0 /\ e_nil (oerr c) = false
-  | (CBegin, false) :: rest => rest = [] /\ oruns c = 0 /\ e_nil (oerr c) = false
-  | (CBegin, true) :: rest =>
-    oruns c = 1 /\
-    exists mid last ok o,
-      rest = mid ++ [(last, ok)] /\ obody c = Some o /\
-      Forall (fun x => is_exec (fst x) = true) mid /\
-      is_end last = true /\
-      (is_commit last = true <-> o = BNil) /\
-      (o = BPanic -> e_nil (oerr c) = false) /\
-      (e_nil (oerr c) = true -> last = CCommit /\ ok = true) /\
-      (ok = false -> e_nil (oerr c) = false /\
-                     (if is_commit last then e_commit (oerr c) else e_rollback (oerr c)) = true)
-  | _ => False
-  end.
+  length (cscripts c) = length (oths c) /\
+  (forall t sc o, nth_error (cscripts c) t = Some sc -> nth_error (oths c) t = Some o ->
+     thread_ok sc (proj t (olog c)) o) /\
+  (forall e, In e (olog c) -> (etid e < length (cscripts c))%nat) /\
+  (forall e, In e (olog c) ->
+     Z.of_nat (count (fun x => on_conn (econn e) x && begun_ok x) (olog c)) =
+     Z.of_nat (count (fun x => on_conn (econn e) x && ent_end x) (olog c)) +
+     open_on (econn e) (cscripts c) (oths c)) /\
+  ofinal c = Z.of_nat (count lostb (olog c)) + Z.of_nat (length (filter still_open (oths c))).
 Proof. exact prop_ok_meaning_l. Qed.
 Print Assumptions check_means_the_property.
 
-(* ---- non-vacuity: concrete inputs meeting the hypotheses --------------------- *)
+(* ---- non-vacuity: concrete runs meeting the hypotheses ------------------------------- *)
+Definition st (m : meth) (f : onfail) : step := mkStep (AStmt m true) f.
+Definition ok : reply := mkReply OOk false.
+Definition fl : reply := mkReply OFail false.
+Definition pn : reply := mkReply OPanic false.
+Definition sc_of (steps : list step) (f : fin) : script := mkScript true false true true 1 steps f 0.
 
-(* three statements, the second fails in the driver and the body returns that error;
-   the rollback fails too *)
-Definition ex_stmt_fails : input :=
-  mkInput true true [mkStmt SOk FStop; mkStmt SFail FStop; mkStmt SOk FStop] RNil true false CLive.
-Example ex_stmt_fails_run :
-  transact ex_stmt_fails =
-  mkResult [(CBegin, true); (CExec 0, true); (CExec 1, false); (CRollback, false)] 1
-           (Some (BErr (BStmt 1))) (ETxFailedRollback (BStmt 1)).
+(* three statements, the second fails in the driver and the body returns that error; the
+   rollback fails too *)
+Example ex_stmt_fails :
+  let W := exec true [sc_of [st MExec FStop; st MQuery FStop; st MExec FStop] RNil] [0; 0; 0]%nat [ok; ok; fl; fl] in
+  wlog W = [mkEnt 0 1 CBegin OOk; mkEnt 0 1 (CStmt 0 KExec) OOk; mkEnt 0 1 (CStmt 1 KQuery) OFail;
+            mkEnt 0 1 CRollback OFail] /\
+  map tst (wthreads W) = [TDone (mkRes 1 (Some (BErr (BStmt 1))) (RetErr (ETxFailed (BStmt 1) DrvRollback)) false)].
+Proof. vm_compute. auto. Qed.
+
+(* an ignored failure of a prepared statement, then a panic; the rollback panics as well: the call
+   panics and the connection is lost *)
+Example ex_panic_and_rollback_panics :
+  let W := exec true [sc_of [st MPrep FIgnore] RPanic] [0; 0; 0]%nat [ok; ok; fl; pn] in
+  wlog W = [mkEnt 0 1 CBegin OOk; mkEnt 0 1 (CStmt 0 KPrepare) OOk; mkEnt 0 1 (CStmt 0 KStmtExec) OFail;
+            mkEnt 0 1 CRollback OPanic] /\
+  map tst (wthreads W) = [TDone (mkRes 1 (Some BPanic) RetPanic false)] /\ wleaks W = 1.
+Proof. vm_compute. auto. Qed.
+
+(* a body whose commit fails *)
+Example ex_commit_fails :
+  let W := exec true [sc_of [st MExec FStop] RNil] [0; 0; 0]%nat [ok; ok; fl] in
+  map tst (wthreads W) = [TDone (mkRes 1 (Some BNil) (RetErr (ECommit DrvCommit)) false)].
 Proof. vm_compute. reflexivity. Qed.
-
-(* an ignored failure, then a panic after the last statement *)
-Definition ex_panic : input :=
-  mkInput true true [mkStmt SFail FIgnore; mkStmt SCtx FIgnore; mkStmt SOk FPanic] RPanic true true CLive.
-Example ex_panic_hyp : ibrk ex_panic = true /\ ibegin ex_panic = true /\
-  rbody (transact ex_panic) = Some BPanic /\ quiet (istmts ex_panic).
-Proof. vm_compute. auto. Qed.
-Example ex_panic_run :
-  rlog (transact ex_panic) = [(CBegin, true); (CExec 0, false); (CExec 2, true); (CRollback, true)]
-  /\ rerr (transact ex_panic) = ERecover.
-Proof. vm_compute. auto. Qed.
-
-(* a quiet body whose commit fails *)
-Definition ex_commit_fails : input :=
-  mkInput true true [mkStmt SOk FStop; mkStmt SOk FStop] RNil false true CLive.
-Example ex_commit_fails_run :
-  In (CCommit, false) (rlog (transact ex_commit_fails)) /\ rerr (transact ex_commit_fails) = ECommit
-  /\ rbody (transact ex_commit_fails) = Some BNil.
-Proof. vm_compute. auto 10. Qed.
 
 Example ex_begin_fails :
-  transact (mkInput true false [mkStmt SOk FStop] RNil true true CLive) = mkResult [(CBegin, false)] 0 None EBegin.
-Proof. vm_compute. reflexivity. Qed.
-
-(* a first reacting statement in the middle (hypotheses of body_outcome_is_the_scripts) *)
-Example ex_reacting :
-  istmts ex_stmt_fails = [mkStmt SOk FStop] ++ mkStmt SFail FStop :: [mkStmt SOk FStop]
-  /\ quiet [mkStmt SOk FStop] /\ reacts (mkStmt SFail FStop) = true.
+  let W := exec true [sc_of [st MExec FStop] RNil] [0; 0]%nat [fl] in
+  wlog W = [mkEnt 0 1 CBegin OFail] /\ map tst (wthreads W) = [TDone (mkRes 0 None (RetErr EBegin) false)].
 Proof. vm_compute. auto. Qed.
 
-(* the context: dead before the call — nothing happens, ctx.Err() is returned *)
-Example ex_dead_context :
-  transact (mkInput true true [mkStmt SOk FStop] RNil true true CDead) = mkResult [] 0 None ECanceled.
-Proof. vm_compute. reflexivity. Qed.
+(* the context becomes done WHILE Begin is in flight: the transaction exists, the body runs, its
+   statement is refused by database/sql, the transaction is rolled back (seeded change C14-4
+   returned before the deferred function was registered) *)
+Example ex_cancelled_during_begin :
+  let W := exec true [sc_of [st MExec FStop] RNil] [0; 0; 0]%nat [mkReply OOk true] in
+  wlog W = [mkEnt 0 1 CBegin OOk; mkEnt 0 1 CRollback OOk] /\
+  map tst (wthreads W) = [TDone (mkRes 1 (Some (BErr (BCtx 0))) (RetErr (EBody (BCtx 0))) false)].
+Proof. vm_compute. auto. Qed.
 
-(* cancelled by the body before its 2nd statement: that statement is refused and the body
-   returns context.Canceled -> one Rollback *)
-Example ex_cancel_mid_body :
-  transact (mkInput true true [mkStmt SOk FStop; mkStmt SOk FStop; mkStmt SOk FStop] RNil true true (CAt 1)) =
-  mkResult [(CBegin, true); (CExec 0, true); (CRollback, true)] 1 (Some (BErr (BCtx 1))) (EBody (BCtx 1)).
-Proof. vm_compute. reflexivity. Qed.
-
-(* ... but a body that swallows statement errors COMMITS although its context is cancelled
-   (observed on the real code too: the transaction is not bound to the context) *)
+(* a body that swallows statement errors COMMITS although its context is cancelled (the transaction
+   is not bound to the context: db.Begin()) *)
 Example ex_cancelled_but_commits :
-  transact (mkInput true true [mkStmt SOk FIgnore; mkStmt SOk FIgnore] RNil true true (CAt 1)) =
-  mkResult [(CBegin, true); (CExec 0, true); (CCommit, true)] 1 (Some BNil) ENil.
-Proof. vm_compute. reflexivity. Qed.
+  let W := exec true [sc_of [st MExec FIgnore; mkStep ACancel FStop; st MExec FIgnore] RNil] [0; 0; 0; 0; 0]%nat [] in
+  wlog W = [mkEnt 0 1 CBegin OOk; mkEnt 0 1 (CStmt 0 KExec) OOk; mkEnt 0 1 CCommit OOk] /\
+  map tst (wthreads W) = [TDone (mkRes 1 (Some BNil) (RetErr ENil) false)].
+Proof. vm_compute. auto. Qed.
+
+(* the body commits itself, goes on, and returns nil: one Commit at the driver, the later
+   statement and Transact's own Commit are answered sql.ErrTxDone *)
+Example ex_body_commits_itself :
+  let W := exec true [sc_of [mkStep ASelfCommit FStop; st MExec FIgnore] RNil] [0; 0; 0; 0]%nat [] in
+  wlog W = [mkEnt 0 1 CBegin OOk; mkEnt 0 1 CCommit OOk] /\
+  map tst (wthreads W) = [TDone (mkRes 1 (Some BNil) (RetErr (ECommit TxDone)) true)].
+Proof. vm_compute. auto. Qed.
+
+(* two transactions on one SqlConn, interleaved, and a third one begun on the pool from inside
+   the body of the first (its quanta 2,2,2 lie inside transaction 0): each on its own connection,
+   each ended once *)
+Example ex_interleaved_and_nested :
+  let scs := [mkScript true false true true 1 [st MExec FStop; mkStep ANop FStop; st MExec FStop] RErr 0;
+              mkScript false false true true 2 [st MQuery FStop] RNil 0;
+              mkScript true false true true 3 [st MExec FStop] RPanic 0] in
+  let W := exec true scs [0; 1; 0; 0; 2; 2; 2; 1; 0; 0; 1]%nat [] in
+  proj 0 (wlog W) = [mkEnt 0 1 CBegin OOk; mkEnt 0 1 (CStmt 0 KExec) OOk; mkEnt 0 1 (CStmt 2 KExec) OOk; mkEnt 0 1 CRollback OOk] /\
+  proj 1 (wlog W) = [mkEnt 1 2 CBegin OOk; mkEnt 1 2 (CStmt 0 KQuery) OOk; mkEnt 1 2 CCommit OOk] /\
+  proj 2 (wlog W) = [mkEnt 2 3 CBegin OOk; mkEnt 2 3 (CStmt 0 KExec) OOk; mkEnt 2 3 CRollback OOk] /\
+  map tinuse (wthreads W) = [1; 0; 2].
+Proof. vm_compute. auto. Qed.
+
+(* a schedule that stops in the middle: transaction 0 is open, nothing is ended yet *)
+Example ex_open_transaction :
+  let W := exec true [sc_of [st MExec FStop; st MExec FStop] RNil] [0; 0]%nat [] in
+  map tst (wthreads W) = [TBody 1 [st MExec FStop] false false] /\ count ent_end (wlog W) = 0%nat /\
+  open_conn 1 (wthreads W) = 1%nat.
+Proof. vm_compute. auto. Qed.
